@@ -10,7 +10,7 @@ RULE = (
     "X1 with the fault plan as the deviation: an instrumented top-level plan logs what each of its yields receives; corpus bodies "
     "(count, scan, grid, nested run keys, fly, cleanup wrapper, bare, two motors) in two policies - propagate (the plan does not "
     "handle the error) and swallow (handle-and-continue) - x every device operation made to raise, or to return a status that fails "
-    "immediately or 0.25 s later; one raising operation x one pause->resume at every later loop position (the error must still reach the plan after the rewind); thorough: two faults, async devices. Oracle: a raising operation => that very exception object is "
+    "immediately or 0.25 s later; one raising operation x one pause->resume at every later loop position (the error must still reach the plan after the rewind); a status that fails only after its call has ended while the next call is running (that call must not see it); thorough: two faults, async devices. Oracle: a raising operation => that very exception object is "
     "logged at the yield of the message that invoked it; a failing status => a FailedStatus whose __cause__ is the status' exception is "
     "logged at a yield k <= j <= (the wait on its group), each error once; propagate => the call raises that object; swallow => the "
     "remaining message trace equals the fault-free one; non-trivial = the fault was delivered to the plan"
@@ -22,7 +22,8 @@ PAUSE1 = [("pause",), ("@once", "pause")]  # one pause -> resume per schedule, c
 _q = ["count2", "scan2", "grid22s", "nested", "fly1", "cleanup", "bare", "twomotors"]
 SPECS = {
     "quick": [spec(k, [], bound=1, faults=F, ly=1, oe=oe) for k in _q + ["watch"] for oe in ("p", "s")]
-    + [spec(k, PAUSE1, bound=2, faults=("raise",), ly=1, oe=oe) for k in ("bare", "count2") for oe in ("p", "s")],
+    + [spec(k, PAUSE1, bound=2, faults=("raise",), ly=1, oe=oe) for k in ("bare", "count2") for oe in ("p", "s")]
+    + [spec("latefail", [], bound=1, faults=F, a=a) for a in (0, 1)],  # a status that fails after its call has ended
     "thorough": [spec(k, [], bound=1, faults=F, ly=1, oe=oe, a=a) for k in _q + ["flyonly", "relscan2", "listscan", "tworuns"] for oe in ("p", "s") for a in (0, 1)]
     + [spec(k, [], bound=2, faults=F, ly=1, oe="s") for k in ("scan2", "bare", "count2")]
     + [spec(k, PAUSE1, bound=2, faults=("raise",), ly=1, oe=oe, a=a) for k in ("bare", "count2", "scan2", "nested", "cleanup") for oe in ("p", "s") for a in (0, 1)],
@@ -40,6 +41,12 @@ def oracle(scn, obs, ref, schedule):
 
     out = []
     if obs.outcome != "ok" or schedule.get("decisions"):
+        return out
+    if scn.id == "latefail":
+        # a status started by one call that fails after that call has ended is not an error of the NEXT call's plan
+        pc = next((c for c in obs.calls if c["name"] == "probe"), None)
+        if pc is not None and pc["exc"] is not None:
+            out.append((f"late-failure-thrown-into-next-call:{type(pc['exc']).__name__}", f"the call after the one that started the failing status raised {type(pc['exc']).__name__}: {str(pc['exc'])[:120]}"))
         return out
     faults = schedule.get("faults", {})
     paused = bool(schedule.get("injections"))
